@@ -509,10 +509,12 @@ class G:
         top = stack[-1] if stack else None
         star = r.choice(["*", "*", "+"])
         if top == "I":
+            # bounded on both sides: the start value is whatever is on the
+            # stack, and counting up from -2^63 is as good as not terminating
             lim = r.choice([3, 5, 8, 12, 20])
-            body = r.choice(["(1 add ?(%d ?lt))" % lim, "(2 add ?(%d ?lt))" % lim,
-                             "(dup 1 add swap drop ?(%d ?lt))" % lim, "(1 add (< %d))" % lim,
-                             "((1 add, 2 add) ?(%d ?lt))" % min(lim, 8)])
+            body = r.choice(["(?(0 ?ge) 1 add ?(%d ?lt))" % lim, "(?(0 ?ge) 2 add ?(%d ?lt))" % lim,
+                             "((>= 0) dup 1 add swap drop ?(%d ?lt))" % lim, "((>= 0) 1 add (< %d))" % lim,
+                             "(?(0 ?ge) (1 add, 2 add) ?(%d ?lt))" % min(lim, 8)])
             return body + star, stack
         if top in ("Q", "QQ", "QX", "QS") and r.random() < 0.7:
             # shrink a sequence: finite
